@@ -132,14 +132,15 @@ def write_if_changed(path, content):
 
 def go_build(out, pkg, tags="verif", race=False, overlay=True, timeout=600):
     """Build a harness command against /repo's working tree."""
-    shutil.copyfile(os.path.join(REPO, "go.sum"), os.path.join(HARNESS, "go.sum"))
+    gs = open(os.path.join(REPO, "go.sum")).read()
+    write_if_changed(os.path.join(HARNESS, "go.sum"), gs)
     cmd = ["go", "build", "-o", out]
     if tags:
         cmd += ["-tags", tags]
     if race:
         cmd += ["-race"]
     if overlay:
-        ov = make_overlay()
+        ov = make_overlay(os.path.basename(pkg))
         cmd += ["-overlay", ov]
     cmd += [pkg]
     env = dict(GOENV)
@@ -148,9 +149,10 @@ def go_build(out, pkg, tags="verif", race=False, overlay=True, timeout=600):
     return sh(cmd, cwd=HARNESS, env=env, timeout=timeout)
 
 
-def make_overlay():
-    """overlay.json: adds harness/shim/*.go into package zerolog (and sub-packages by naming convention
-    shim/<pkgpath with __>/file.go) without touching /repo."""
+def make_overlay(driver):
+    """overlay_<driver>.json: adds harness/shim/**/verif_export*.go and verif_<driver>*.go into the package
+    directory of /repo with the same relative path (shim/x.go -> /repo/zz_verif_x.go,
+    shim/internal/cbor/x.go -> /repo/internal/cbor/zz_verif_x.go) without touching /repo."""
     os.makedirs(WORK, exist_ok=True)
     repl = {}
     shim = os.path.join(HARNESS, "shim")
@@ -158,13 +160,15 @@ def make_overlay():
         for f in files:
             if not f.endswith(".go"):
                 continue
+            if not (f.startswith("verif_export") or f.startswith("verif_" + driver)):
+                continue
             rel = os.path.relpath(root, shim)
             dest_dir = REPO if rel == "." else os.path.join(REPO, rel)
             repl[os.path.join(dest_dir, "zz_verif_" + f)] = os.path.join(root, f)
-    extra = os.path.join(WORK, "overlay_extra.json")
+    extra = os.path.join(WORK, f"overlay_extra_{driver}.json")
     if os.path.exists(extra):
         repl.update(json.load(open(extra)))
-    p = os.path.join(WORK, "overlay.json")
+    p = os.path.join(WORK, f"overlay_{driver}.json")
     json.dump({"Replace": repl}, open(p, "w"), indent=1)
     return p
 
@@ -321,9 +325,9 @@ def main():
     log = []
     broken = []       # names of theorems / correspondences that no longer check
     os.makedirs(WORK, exist_ok=True)
+    shutil.rmtree(work, ignore_errors=True)
+    os.makedirs(work)
     with Lock():
-        shutil.rmtree(work, ignore_errors=True)
-        os.makedirs(work)
         # 1. translator
         gen_ok, gen_msg = run_go2coq(log)
         if not gen_ok:
@@ -333,6 +337,7 @@ def main():
         if not coq["ok"]:
             f = coq["failed"]
             broken.append(f"coq {f['stage']}: {', '.join(f['where'])}")
+    if True:
         # 3. harness
         drv_res = None
         shard_results = []
@@ -347,7 +352,7 @@ def main():
                 cmd = [binp, "-prop", pid, "-tier", tier, "-seed", str(seed), "-out", work]
                 if a.replay:
                     cmd += ["-replay", a.replay]
-                env = dict(GOENV, VERIF_DIR=VERIF, VERIF_REPO=REPO, VERIF_WORK=work, VERIF_OVERLAY=os.path.join(WORK, "overlay.json"))
+                env = dict(GOENV, VERIF_DIR=VERIF, VERIF_REPO=REPO, VERIF_WORK=work, VERIF_OVERLAY=os.path.join(WORK, f"overlay_{cfg['driver']}.json"))
                 rc, out, dt = sh(cmd, cwd=HARNESS, env=env, timeout=cfg["timeout_thorough" if tier == "thorough" else "timeout_quick"])
                 log.append(f"== drv ({dt:.1f}s)\n" + out[-20000:])
                 rp = os.path.join(work, "result.json")
